@@ -297,6 +297,8 @@ def run(ctx, rep):
     check_flag_clears(ctx, rep)
     check_shared_flags(ctx, rep)
     check_cache_values(ctx, rep)
+    rep.rule('C11.K', "a callable model whose value depends on an argument of the call (not only on its parameters) does not inherit the argument-blind cache of CallableModel.__call__")
+    check_call_arguments(ctx, rep)
     check_dict_writes(ctx, rep)
     check_cache_bypass(ctx, rep)
     check_listener_filters(ctx, rep)
@@ -1340,4 +1342,85 @@ def check_cache_values(ctx, rep, rule='C11.V', only=None):
                                   f"{cls.name}.{nm} stores `{val}` into self.{cache}, a cache that is otherwise recomputed as {sorted(values)} when self.{flag_for.get(cache)} is set: "
                                   f"the object then serves a value that a freshly built one would not compute from the same inputs")
     rep.analysed[f'cache_value_store_sites[{rule}]'] = n
+    return n
+
+
+def call_argument_data_uses(fn: ast.FunctionDef):
+    """(tainted names, data uses): values taken from the call arguments of `_call` (`kwargs[...]`, `kwargs.get(...)`, `args[...]`) and the places where they enter the
+    computation as operands.  Uses that only steer the evaluation — the argument of `.sample()` / `.rsample()`, `len(...)`, a comparison or membership test — are not data."""
+    va = fn.args.vararg.arg if fn.args.vararg else None
+    kw = fn.args.kwarg.arg if fn.args.kwarg else None
+    if va is None and kw is None:
+        return set(), []
+
+    def from_arguments(e):
+        for x in ast.walk(e):
+            if isinstance(x, ast.Subscript) and isinstance(x.value, ast.Name) and x.value.id in (va, kw):
+                return True
+            if isinstance(x, ast.Call) and isinstance(x.func, ast.Attribute) and x.func.attr in ('get', 'pop') and isinstance(x.func.value, ast.Name) and x.func.value.id == kw:
+                return True
+        return False
+
+    def control_context(n):
+        p, child = getattr(n, '_parent', None), n
+        while p is not None and not isinstance(p, ast.stmt):
+            if isinstance(p, ast.Call):
+                nm = p.func.attr if isinstance(p.func, ast.Attribute) else (p.func.id if isinstance(p.func, ast.Name) else '')
+                if nm in ('sample', 'rsample', 'len', 'isinstance') and child is not p.func:
+                    return True
+            if isinstance(p, ast.Compare):
+                return True
+            p, child = getattr(p, '_parent', None), p
+        return isinstance(p, (ast.If, ast.While)) and any(child is x or any(child is y for y in ast.walk(x)) for x in [p.test])
+    tainted = set()
+    changed = True
+    while changed:
+        changed = False
+        for st in ast.walk(fn):
+            tgt, val = None, None
+            if isinstance(st, ast.Assign) and len(st.targets) == 1 and isinstance(st.targets[0], ast.Name):
+                tgt, val = st.targets[0].id, st.value
+            elif isinstance(st, ast.AnnAssign) and isinstance(st.target, ast.Name) and st.value is not None:
+                tgt, val = st.target.id, st.value
+            if tgt is None or tgt in tainted:
+                continue
+            if from_arguments(val) or any(isinstance(x, ast.Name) and x.id in tainted and not control_context(x) for x in ast.walk(val)):
+                tainted.add(tgt)
+                changed = True
+    uses = []
+    for x in ast.walk(fn):
+        if isinstance(x, ast.Name) and x.id in tainted and isinstance(x.ctx, ast.Load) and not control_context(x):
+            uses.append(x)
+        if isinstance(x, ast.Subscript) and isinstance(x.value, ast.Name) and x.value.id in (va, kw) and isinstance(x.ctx, ast.Load) and not control_context(x):
+            st = x
+            while st is not None and not isinstance(st, ast.stmt):
+                st = getattr(st, '_parent', None)
+            if not isinstance(st, (ast.Assign, ast.AnnAssign)):
+                uses.append(x)
+    return tainted, uses
+
+
+def check_call_arguments(ctx, rep, rule='C11.K'):
+    """CallableModel.__call__ serves the last value until a parameter or sub-model changes; it does not look at the call's arguments.  A model whose `_call` computes with
+    an argument of the call (the Hamiltonian's momentum) must therefore not inherit that cache: a second call with another argument returns the value of the first."""
+    n = 0
+    for cls in sorted(ctx.classes.subclasses('torchtree.core.model.CallableModel'), key=lambda c: c.qualname):
+        if cls.is_abstract():
+            continue
+        rc, rcall = cls.resolve('_call'), cls.resolve('__call__')
+        if not rc or not rcall:
+            continue
+        tainted, uses = call_argument_data_uses(rc[1])
+        if not tainted:
+            continue
+        n += 1
+        cached = rcall[0].qualname == 'torchtree.core.model.CallableModel'
+        key = f"{cls.qualname}::call-arguments-that-enter-the-value-are-not-served-from-the-cache"
+        rep.check(rule, key, not (uses and cached), where(rc[0].module, rc[1]),
+                  {'values_from_call_arguments': sorted(tainted), 'operand_uses': [f"{u.lineno}:{ast.unparse(u)}" for u in uses][:6], '__call__': rcall[0].qualname},
+                  f"{cls.name}._call computes with {sorted(tainted)} taken from the arguments of the call, but {cls.name} is called through CallableModel.__call__, which returns the "
+                  f"cached value of the previous call as long as no parameter changed: a second evaluation with a different argument returns the value of the first")
+    rep.analysed[f'callable_models_reading_call_arguments[{rule}]'] = n
+    if n < 5:
+        rep.incomplete(rule, '*', '', f"only {n} callable models read their call arguments (expected the variational objectives and the Hamiltonian)")
     return n
